@@ -43,8 +43,8 @@ func main() {
 		tier := fs.String("tier", envOr("VERIF_TIER", "quick"), "quick|thorough")
 		filter := fs.String("filter", "", "only cases whose key contains this string")
 		verbose := fs.Bool("v", false, "verbose")
-		solver := fs.String("solver", envOr("VERIF_SOLVER", "z3"), "z3|z3-new|cvc5")
-		cross := fs.String("cross", envOr("VERIF_CROSS", "z3-new"), "cross-check solver or empty")
+		solver := fs.String("solver", envOr("VERIF_SOLVER", "z3-new"), "z3|z3-new|cvc5")
+		cross := fs.String("cross", envOr("VERIF_CROSS", "cvc5"), "cross-check solver or empty")
 		timeout := fs.Int("qtimeout", 120000, "per-query timeout ms")
 		fs.Parse(os.Args[3:])
 		ck := checks.All[id]
